@@ -19,11 +19,13 @@ class WelfordTracker(Tracker):
         Args:
             value_i (int or float): The numeric value to be added to the tracker.
         """
-        self.N += 1
+        # compute first, commit last: a value that cannot be processed (raises) leaves the tracker unchanged
+        n = self.N + 1
         difference_1 = value_i - self.tracked_value
-        self.tracked_value += difference_1 / self.N
-        difference_2 = value_i - self.tracked_value
-        self.sum_squares += difference_1 * difference_2
+        mean = self.tracked_value + difference_1 / n
+        difference_2 = value_i - mean
+        sum_squares = self.sum_squares + difference_1 * difference_2
+        self.N, self.tracked_value, self.sum_squares = n, mean, sum_squares
         return self
 
     @property
